@@ -157,6 +157,7 @@ type flags struct{ Remote, Dashboard, Pprof bool }
 type serverKey struct {
 	f     flags
 	token bool
+	bad   string
 }
 
 type server struct {
@@ -234,6 +235,9 @@ type reqSpec struct {
 	Extra  []string `json:"extra_headers,omitempty"` // full header lines
 	Remote string   `json:"remote_addr,omitempty"`
 	Host   string   `json:"host,omitempty"`
+	// BadHash: the configured token_hash is this string, which is not a
+	// well-formed bcrypt hash: no token at all can be valid
+	BadHash string `json:"malformed_token_hash,omitempty"`
 }
 
 func parse(rs reqSpec) (*http.Request, error) {
@@ -299,14 +303,17 @@ func main() {
 		panic(err)
 	}
 	servers := map[serverKey]*server{}
-	getServer := func(f flags, token bool) *server {
-		k := serverKey{f, token}
+	getServer := func(f flags, token bool, bad string) *server {
+		k := serverKey{f, token, bad}
 		if s, ok := servers[k]; ok {
 			return s
 		}
 		h := ""
 		if token {
 			h = string(hash)
+		}
+		if bad != "" {
+			h = bad
 		}
 		s, err := newServer(f, h)
 		if err != nil {
@@ -338,16 +345,20 @@ func main() {
 	type cfgKey struct {
 		cs    cfgSpec
 		token bool
+		bad   string
 	}
 	cfgServers := map[cfgKey]*server{}
-	getCfgServer := func(cs cfgSpec, token bool) *server {
-		k := cfgKey{cs, token}
+	getCfgServer := func(cs cfgSpec, token bool, bad string) *server {
+		k := cfgKey{cs, token, bad}
 		if s, ok := cfgServers[k]; ok {
 			return s
 		}
 		th := ""
 		if token {
 			th = string(hash)
+		}
+		if bad != "" {
+			th = bad
 		}
 		text := cs.yaml(dataDir, th)
 		cfg, err := config.Parse([]byte(text))
@@ -382,13 +393,16 @@ func main() {
 			return
 		}
 		var srv *server
+		if rs.BadHash != "" {
+			rs.Token = true
+		}
 		if rs.Cfg != nil {
 			rs.Flags = rs.Cfg.flags()
-			if srv = getCfgServer(*rs.Cfg, rs.Token); srv == nil {
+			if srv = getCfgServer(*rs.Cfg, rs.Token, rs.BadHash); srv == nil {
 				return
 			}
 		} else {
-			srv = getServer(rs.Flags, rs.Token)
+			srv = getServer(rs.Flags, rs.Token, rs.BadHash)
 		}
 		// routing observation on the twin mux (does not run the handler)
 		var routedHandler http.Handler
@@ -403,7 +417,7 @@ func main() {
 			hdr = v[0]
 		}
 		queryTok := req.URL.Query().Get("token")
-		carriesValid := hdr == "Bearer "+rightToken || queryTok == rightToken
+		carriesValid := (hdr == "Bearer "+rightToken || queryTok == rightToken) && rs.BadHash == ""
 		passes := !rs.Token || exempt[req.URL.Path] || carriesValid
 		// pprof.Profile and pprof.Trace do run when reached: with the request context already
 		// cancelled they start and stop the profiler without waiting
@@ -448,7 +462,7 @@ func main() {
 		}
 
 		nontrivial := !(exempt[req.URL.Path] && req.Method == "GET")
-		key := fmt.Sprintf("%v|%v|%s|%s|%v|%v|%s|%s", rs.Flags, rs.Token, rs.Method, rs.Target, rs.Auth, rs.Extra, rs.Remote, rs.Host)
+		key := fmt.Sprintf("%v|%v|%s|%s|%v|%v|%s|%s|%s", rs.Flags, rs.Token, rs.Method, rs.Target, rs.Auth, rs.Extra, rs.Remote, rs.Host, rs.BadHash)
 		c.Case(key, nontrivial, rs)
 		c.Count(fmt.Sprintf("class:%d", class))
 		c.Count(fmt.Sprintf("status:%d", status))
@@ -517,7 +531,11 @@ func main() {
 			body.Bool(rs.Flags.Pprof)
 		}
 		body.Bool(rs.Token)
-		body.Ref(rightToken)
+		if rs.BadHash != "" {
+			body.Ref("\x00no token matches a malformed hash")
+		} else {
+			body.Ref(rightToken)
+		}
 		body.Bool(req.Method == "CONNECT")
 		body.Ref(req.URL.Path)
 		body.Ref(req.URL.EscapedPath())
@@ -748,6 +766,30 @@ func main() {
 						}
 					}
 				}
+			}
+		}
+		// 1d. token_hash configured but not a well-formed bcrypt hash (truncated, plaintext pasted, prefix or
+		// cost mangled): the middleware is installed and no token whatsoever may pass
+		hs := string(hash)
+		badHashes := []string{"plaintext-" + rightToken, rightToken, hs[:len(hs)-1], hs[:30], hs[1:], "$9z" + hs[3:], "$2a$99" + hs[6:], "$2a$4$" + hs[7:],
+			"$2a$04$", "$", "x", hs[:7] + strings.Repeat("!", len(hs)-7), "{bcrypt}" + hs, " " + hs}
+		for i, bh := range badHashes {
+			for j, a := range [][]string{nil, {"Bearer " + rightToken}, {"Bearer anything"}, {"Bearer " + bh}, {"Bearer x"}} {
+				for _, t := range []string{"/agents", "/routes/advertise", "/api/topology"} {
+					if !c.Thorough() && (i+j)%2 == 1 && t != "/agents" {
+						continue
+					}
+					run(reqSpec{Method: "POST", Target: t, Auth: a, Flags: flags{true, true, true}, BadHash: bh})
+					run(reqSpec{Method: "GET", Target: t, Auth: a, Flags: flags{true, true, true}, BadHash: bh})
+				}
+			}
+			run(reqSpec{Method: "GET", Target: "/agents?token=" + url.QueryEscape(rightToken), Flags: flags{true, true, true}, BadHash: bh})
+			run(reqSpec{Method: "GET", Target: "/agents?token=" + url.QueryEscape(bh), Flags: flags{true, true, true}, BadHash: bh})
+			run(reqSpec{Method: "GET", Target: "/health", Flags: flags{true, true, true}, BadHash: bh})
+			// the same through configuration text and the agent (token_hash is subject to ${VAR} expansion there)
+			cs := cfgSpec{}
+			for _, a := range [][]string{nil, {"Bearer " + rightToken}, {"Bearer anything"}} {
+				run(reqSpec{Cfg: &cs, Method: "GET", Target: "/agents", Auth: a, BadHash: bh})
 			}
 		}
 		// 2. the token cache over a history on one server: right, wrong, right again, near misses
